@@ -2008,5 +2008,6 @@ class MergedResult(IteratorResult[Unpack[_Ts]]):
     def _soft_close(self, hard: bool = False, **kw: Any) -> None:
         for r in self._results:
             r._soft_close(hard=hard, **kw)
+        super()._soft_close(hard=hard, **kw)
         if hard:
             self.closed = True
